@@ -116,9 +116,10 @@ def showObs (o : Obs) : String :=
 def parseCfg (mn mx v m : String) : Option Cfg := do
   let mn ← mn.toNat?
   let mx ← mx.toNat?
-  let v ← parseBool v
+  -- "c" = a valid target and a caller whose context is done before the engine returns
+  let (v, c) ← (if v = "c" then some (true, true) else (parseBool v).map (·, false))
   let m ← parseBool m
-  pure { min := mn, max := mx, validTarget := v, mustClosePort := m }
+  pure { min := mn, max := mx, validTarget := v, mustClosePort := m, cancelled := c }
 
 def par (f : Cfg → FaultPlan → List Step → Obs) : Handler
   | mn :: mx :: v :: m :: plan :: steps => orBad do
